@@ -156,7 +156,7 @@ pub fn asc_oracle(ctx: &mut Ctx, c: &Case) -> Check {
 }
 
 pub fn run(ctx: &mut Ctx) {
-    let (k, maxlen) = ctx.pick((200u32, 2usize), (8000u32, 3usize));
+    let (k, maxlen) = ctx.pick((3000u32, 2usize), (40000u32, 3usize));
     for kind in KINDS {
         ctx.stage(&format!("conform:{}", kind));
         let s = boxes::strategy(kind, maxlen).prop_map(|spec| Case { spec, asc_freq: 0 });
